@@ -181,7 +181,7 @@ class P:
                     args.append(self.expr()); self.accept(',')
                 self.expect(')')
                 return ('call', name, args)
-            if self.peek() == '{' and name in ('Version', 'Self', 'BoundSet') and not getattr(self, 'no_struct', False):
+            if self.peek() == '{' and name in ('Version', 'Self', 'BoundSet', 'Partial') and not getattr(self, 'no_struct', False):
                 self.next(); fields = {}
                 while self.peek() != '}':
                     f = self.next()
